@@ -94,6 +94,10 @@ def _simplifications(spec):
             t["session"]["end"] = "exit"
             t["session"].pop("after_exit", None)
             out.append(("end with EXIT", t))
+        if sess.get("exit_term", "\n") != "\n":
+            t = copy.deepcopy(s)
+            t["session"].pop("exit_term")
+            out.append(("EXIT terminated by LF", t))
         if sess.get("stdin_errors") == "strict":
             t = copy.deepcopy(s)
             t["session"]["stdin_errors"] = "surrogateescape"
